@@ -8,6 +8,7 @@ use std::io::{BufRead, Read, Write};
 use std::net::{TcpListener, TcpStream};
 use std::process::{Child, Command, Stdio};
 use std::time::{Duration, Instant};
+use uuid::Uuid;
 
 pub struct BinCtx {
     pub h: HCtx,
@@ -20,6 +21,8 @@ pub struct BinCtx {
     pub conns: std::collections::HashMap<usize, TcpStream>,
     /// working directory of the server process (None: the harness's own)
     pub cwd: Option<std::path::PathBuf>,
+    /// uploads whose head has been sent and whose body is still outstanding (see `stall`)
+    pub stalled: Vec<TcpStream>,
 }
 
 fn free_port() -> u16 {
@@ -168,7 +171,7 @@ pub fn send_keepalive(s: &mut TcpStream, addr: &str, prep: &Prepared) -> Option<
 impl BinCtx {
     pub fn new(seed: u64) -> Self {
         let bin = std::env::var("TSS_SERVER_BIN").expect("TSS_SERVER_BIN");
-        BinCtx { h: HCtx::new(Backend::Sqlite, seed), child: None, addrs: vec![], args: vec![], envs: vec![], bin, conns: std::collections::HashMap::new(), cwd: None }
+        BinCtx { h: HCtx::new(Backend::Sqlite, seed), child: None, addrs: vec![], args: vec![], envs: vec![], bin, conns: std::collections::HashMap::new(), cwd: None, stalled: vec![] }
     }
 
     /// boot listen=flag:N|env:N dir=flag|env allow=none|flag:a,b|env:a,b|flagempty versions=default|flag:K|env:K days=default|flag:K|env:K
@@ -429,7 +432,40 @@ impl BinCtx {
                 self.h.l1.out.push(format!("OP mark bootocc n={n} k={k} src={src} exited={} served={}", exited as u8, if exited { 0 } else { served }));
                 self.h.l1.out.push("R mark".into());
             }
+            ["stall", n] => {
+                // N uploads in flight at once: on N further connections the head of an upload (add-version and
+                // add-snapshot alternately, clients nobody else uses) and the first byte of its 64-byte body are
+                // sent; the rest stays outstanding until `unstall`, which closes the connections (the uploads
+                // are then incomplete: refused, nothing stored).  What other clients are answered meanwhile is
+                // none of these uploads' business.
+                let n: usize = n.parse().unwrap();
+                let addr = self.addrs[0].clone();
+                let mut opened = 0;
+                for i in 0..n {
+                    if let Ok(mut st) = TcpStream::connect(&addr) {
+                        let cid = Uuid::from_u128(0x5a5a_0000_0000_4000_8000_0000_0000_0000u128 + i as u128);
+                        let (route, ct) = if i % 2 == 0 { ("add-version", "application/vnd.taskchampion.history-segment") } else { ("add-snapshot", "application/vnd.taskchampion.snapshot") };
+                        let head = format!("POST /v1/client/{route}/{} HTTP/1.1\r\nHost: {addr}\r\nX-Client-Id: {cid}\r\nContent-Type: {ct}\r\nContent-Length: 64\r\n\r\nx", Uuid::nil());
+                        if st.write_all(head.as_bytes()).is_ok() && st.flush().is_ok() {
+                            opened += 1;
+                            self.stalled.push(st);
+                        }
+                    }
+                }
+                // let the server take the heads in
+                std::thread::sleep(Duration::from_millis(300));
+                self.h.l1.out.push(format!("OP mark stall {n} opened={opened}"));
+                self.h.l1.out.push("R mark".into());
+            }
+            ["unstall"] => {
+                let n = self.stalled.len();
+                self.stalled.clear();
+                std::thread::sleep(Duration::from_millis(200));
+                self.h.l1.out.push(format!("OP mark unstall {n}"));
+                self.h.l1.out.push("R mark".into());
+            }
             ["kill"] => {
+                self.stalled.clear();
                 self.conns.clear();
                 self.kill();
                 self.h.l1.out.push("OP mark kill".into());
